@@ -629,6 +629,35 @@ func cmdReplica(args []string) {
 			if *mode == "full" {
 				emit(StepOut{Step: i, Op: "simulate", Note: r.Simulate(st.Tx)})
 			}
+		case "toboundary":
+			// empty blocks until the NEXT block is one in which something is scheduled (a timeout, a shard expiry, a model
+			// expiry): an export taken here has the schedule entry of its very first block still ahead
+			st0 := r.ProjectCommitted()
+			next := int64(0)
+			for _, q := range [][]chain.PSched{st0.TimeoutQ, st0.ExpShardQ} {
+				for _, e := range q {
+					if e.H > st0.H && (next == 0 || e.H < next) {
+						next = e.H
+					}
+				}
+			}
+			for _, e := range st0.ExpData {
+				if e.H > st0.H && (next == 0 || e.H < next) {
+					next = e.H
+				}
+			}
+			adv := int64(0)
+			if next > 0 && next-st0.H-1 <= st.N {
+				for r.App.LastBlockHeight()+1 < next {
+					if _, err := r.Block(nil); err != nil {
+						emit(StepOut{Step: i, Op: "halt", Note: err.Error()})
+						r.Close()
+						os.Exit(4)
+					}
+					adv++
+				}
+			}
+			emit(StepOut{Step: i, Op: "toboundary", Note: fmt.Sprint(adv)})
 		case "stores":
 			emit(StepOut{Step: i, Op: "stores", Stores: r.DumpStores()})
 		case "setround":
